@@ -149,6 +149,11 @@ def run(chk):
         'CODATA particle masses, 24 residue formulas',
         'round(x, p) is modelled as round-half-even on the exact rational; values with precision are compared at 1e-p',
     ]
+    from peptacular.proforma import proforma_parser as _pp
+    reach = cm.Reach([mass_calc.mass, mass_calc.mz, mass_calc.adjust_mass, mass_calc.adjust_mz, mass_calc._parse_adduct_mass,
+                      mass_calc._parse_charge_adducts_mass, chem_util.chem_mass, _pp.parse_ion_elements, _pp._pop_ion_count,
+                      _pp._pop_ion_symbol, _pp._pop_ion_charge])
+    reach.start()
     chk.rule = ('annotations over the 22 unambiguous letters + X, J (len 1..15) with numeric / formula (incl. isotopes) / Unimod / glycan '
                 'mods at residue, terminus, interval, unknown, labile and global-rule positions, multipliers 1..3; charge -4..6 or None, '
                 '18 ion types, isotope 0..4, loss, precision None/0..6, adduct lists over 9 ions x counts {-2,-1,1,2,3}, both modes; '
@@ -219,7 +224,7 @@ def run(chk):
     for _ in range(400 * N):
         d = {}
         for _ in range(rng.randint(0, 6)):
-            el = rng.choice(['C', 'H', 'N', 'O', 'S', 'P', '13C', 'D', '2H', '15N', 'e', 'n', 'Na', 'Se']) if rng.random() < 0.8 else rng.choice(elems)
+            el = rng.choice(['C', 'H', 'N', 'O', 'S', 'P', '13C', 'D', '2H', '15N', 'e', 'n', 'p', 'Na', 'Se', 'T']) if rng.random() < 0.8 else rng.choice(elems)
             d[el] = rng.choice([1, 2, -1, 10, 53, 0, 2.5, -0.25, 1e-3, 7])
         if rng.random() < 0.03:
             d['Xx'] = 1
@@ -258,7 +263,8 @@ def run(chk):
             a = cm.gen_annotation(rng, kinds=cm.APRIORI + ['tagged'], isotope_p=0.7)
             kw = gen_kw(rng, label_p=0.3)
         else:               # error paths: odd values, ambiguous letters
-            a = cm.gen_annotation(rng, residues=cm.RES24 + 'BZ' if rng.random() < 0.3 else cm.RES24, kinds=cm.APRIORI + ['tagged', 'odd'], isotope_p=0.2)
+            a = cm.gen_annotation(rng, residues=cm.RES24 + rng.choice(['BZ', 'b1', 'B', 'Z*']) if rng.random() < 0.4 else cm.RES24,
+                                  kinds=cm.APRIORI + ['tagged', 'odd'], isotope_p=0.2)
             kw = gen_kw(rng, label_p=0.1)
             if rng.random() < 0.1:
                 kw['ion_type'] = rng.choice(['q', 'yb', '', 'B'])
@@ -306,6 +312,33 @@ def run(chk):
                 st['disagreements'] += 1
                 if len([d for d in chk.disagreements if d['op'] == op]) < 5:
                     chk.disagreements.append({'op': op, 'line': l, 'impl': im, 'model': m, 'case': obj_of(a, kw)})
+
+    # string inputs (sequence_to_annotation in front of the same code): mass(str) / mz(str) vs the model on parse(str)
+    scases = []
+    for a, kw in cases[:: max(1, len(cases) // 300)]:
+        try:
+            txt = a.serialize()
+            a2 = pt.parse(txt)
+        except Exception:  # noqa
+            continue
+        if type(a2).__name__ != 'ProFormaAnnotation':
+            continue
+        scases.append((txt, a2, kw))
+    for op, fn in (('mass', pt.mass), ('mz', pt.mz)):
+        sc = [c for c in scases if not (op == 'mz' and 'use_isotope_on_mods' in c[2])]
+        outs = chk.driver(DRV, [cm.line(op, a2, kw) for _, a2, kw in sc])
+        st = chk.corr.setdefault(op + '_from_string', {'evaluations': 0, 'disagreements': 0, 'samples': []})
+        for (txt, a2, kw), m in zip(sc, outs):
+            try:
+                im = 'ok ' + repr(fn(txt, **kw))
+            except Exception as e:  # noqa
+                im = 'ERR:' + type(e).__name__
+            st['evaluations'] += 1
+            chk.evaluations += 1
+            if not cm.cmp_float(im, m, tol_of(kw)):
+                st['disagreements'] += 1
+                if len([d for d in chk.disagreements if d['op'] == op + '_from_string']) < 5:
+                    chk.disagreements.append({'op': op + '_from_string', 'line': txt, 'impl': im, 'model': m, 'case': obj_of(a2, kw)})
 
     # ------------------------------------------------------------------ oracle 1: reference tables
     nuc, avg, part = ref_tables(chk)
@@ -460,6 +493,7 @@ def run(chk):
     chk.oracle('label_path_loss_and_precision', lcases, o_label, key_fn=lambda c: json.dumps(obj_of(*c), sort_keys=True))
     _attach_cases(chk, 'label_path_loss_and_precision', lcases, o_label)
 
+    cm.attach_reach(chk, reach)
     if tier == 'thorough':
         chk.leanchecker(['PeptVerif.Props.C02', 'PeptVerif.Model.Mass', 'PeptVerif.Model.Chem'])
     return chk.finish(classify)
